@@ -6,6 +6,11 @@ kinds:  'sswitch'    a REAL SimplePacketSwitch (FlowDemux over n Ports)
                      applications do; tables with unknown flows and ports without an output
         'flowdemux'  a REAL FlowDemux over Ports, with or without a default output
         'fibdemux'   a REAL FIBDemux over Ports with table / default output / end devices
+        'nsplitter'  a REAL NSplitter(N) with a Port behind every output: EVERY output receives EVERY packet exactly once (output 0 the
+                     object itself, the others shallow copies); model `mcast t0 (fun _ _ => true) ports` (coq/Elem/ComposeCast.v)
+        'hub'        a REAL Hub whose endpoints sit behind Ports: every endpoint except the packet's source receives the packet (the
+                     same object) exactly once; model `mcast t0 (hub_want state src) ports`, the want-function read off Route/Hub.v's
+                     hub_put
 All objects live in ONE Environment, driven by the elem_common harness: the packets are put into the switch itself, taps sit between
 the demux and every device it hands packets to, between every egress port and its scheduler, and behind every output (per-port
 sinks).  The switch objects are built by their own constructors; the harness only names the processes / stores of the parts it finds
@@ -58,13 +63,13 @@ def rule_fibdemux(nouts, fib, ends, default, flow):
 
 class RoutePart:
     name = "route"
-    kinds = ["sswitch", "fswitch", "flowdemux", "fibdemux"]
+    kinds = ["sswitch", "fswitch", "flowdemux", "fibdemux", "nsplitter", "hub"]
     serves = ["C08"]
     weight = 2
     props_files = {"C08": ["Props/C08_Route.v"]}
     coq_imports = ["From ONL Require Import Base.Cmp Elem.Packet Elem.StoreQ Elem.HeapList Elem.WFQServer Elem.WFQ Elem.VC Elem.DRR "
                    "Elem.SchedBase Elem.SP Elem.Port Route.Demux Elem.Iface Elem.Compose Elem.ComposePar Elem.ComposeFan "
-                   "Elem.ComposeSwitch Elem.AdaptPort Elem.AdaptSched Elem.AdaptSrv Elem.AdaptDRR Elem.AdaptSwitch."]
+                   "Elem.ComposeSwitch Elem.ComposeCast Route.Hub Elem.AdaptPort Elem.AdaptSched Elem.AdaptSrv Elem.AdaptDRR Elem.AdaptSwitch."]
     nontrivial_rule = {"C08": (
         "sswitch: 2-4 ports, rates 512/1024/4096, packet limit None/1/2/3, flows -1..n (one flow per port, some without a port); "
         "fswitch: 2-3 ports, server SP / WFQ (equal power-of-two weights) / VirtualClock / DRR (half of the time with packets above "
@@ -91,11 +96,22 @@ class RoutePart:
     # ---- generation ------------------------------------------------------------------------------------------------
     def gen_case(self, rng, tier, prop_id):
         r = rng.random()
-        if r < 0.3:
+        if r < 0.27:
             return self._gen_sswitch(rng)
-        if r < 0.7:
+        if r < 0.62:
             return self._gen_fswitch(rng)
-        return self._gen_demux(rng, "flowdemux" if r < 0.82 else "fibdemux")
+        if r < 0.82:
+            return self._gen_demux(rng, "flowdemux" if r < 0.7 else "fibdemux")
+        return self._gen_cast(rng, "nsplitter" if r < 0.91 else "hub")
+
+    def _gen_cast(self, rng, kind):
+        n = rng.choice([2, 3, 3])
+        flows = tuple(range(n + (1 if kind == "hub" else 0)))         # hub: flow f comes from endpoint f; flow n from outside
+        w = ec.gen_workload(rng, flows=flows, n_max=6, sizes=SIZES, burst_p=0.5)
+        for sp in w["packets"].values():
+            sp["src"] = "ep%d" % sp["flow"]
+        return {"kind": kind, "nouts": n, "rates": [rng.choice([0, 512, 1024]) for _ in range(n)],
+                "buffers": [rng.choice([None, None, 2, 3]) for _ in range(n)], "workload": w, "pre": rng.random() < 0.3}
 
     def _gen_sswitch(self, rng):
         n = rng.choice([2, 2, 3, 4])
@@ -195,6 +211,12 @@ class RoutePart:
                 for d in range(max(ends.values()) + 1):
                     stages.append({"el": "port", "rate": 0, "qlimit": None, "limit_bytes": False, "eid": "dx%d" % (4 + d)})
                     slots.append([len(stages) - 1])
+        elif k in ("nsplitter", "hub"):
+            n = case["nouts"]
+            stages.append({"el": k, "nouts": n})
+            for i in range(n):
+                stages.append({"el": "port", "rate": case["rates"][i], "qlimit": case["buffers"][i], "limit_bytes": False, "eid": "dx%d" % i})
+                slots.append([1 + i])
         else:
             n = case["nouts"]
             if k == "flowdemux":
@@ -217,6 +239,13 @@ class RoutePart:
                     stages.append({"el": "port", "rate": 0, "qlimit": None, "limit_bytes": False, "eid": "dx%d" % (4 + d)})
                     slots.append([len(stages) - 1])
         return stages, slots, stages[0]
+
+    @staticmethod
+    def wanted(dm, flow):
+        """replicating elements: the outputs a packet of this flow must reach (each exactly once)"""
+        if dm["el"] == "nsplitter":
+            return list(range(dm["nouts"]))
+        return [i for i in range(dm["nouts"]) if i != flow]           # hub: flow f comes from endpoint f
 
     @staticmethod
     def rule(dm, flow):
@@ -330,6 +359,24 @@ class RoutePart:
                         objs[j] = Port(env, 0, None, False, stages[j]["eid"])
                         devs.append(objs[j])
                     demux.ends = {f: devs[d] for f, d in dm["ends"].items()}
+            elif k in ("nsplitter", "hub"):
+                for j in range(1, n):
+                    st = stages[j]
+                    objs[j] = Port(env, st["rate"], st["qlimit"], st["limit_bytes"], st["eid"])
+                if k == "nsplitter":
+                    from onl.netdev.splitter import NSplitter
+                    top = NSplitter(n - 1)
+                    for i in range(n - 1):
+                        top.outs[i] = objs[1 + i]
+                else:
+                    from onl.netdev.hub import Hub
+                    eps = []
+                    for i in range(n - 1):
+                        ep = LastTap(h, "s%d" % (1 + i))
+                        ep.element_id = "ep%d" % i
+                        eps.append(ep)
+                    top = Hub(env, endpoints=eps, ports=[objs[1 + i] for i in range(n - 1)])
+                demux = top
             else:
                 from onl.netdev.demux import FlowDemux, FIBDemux
                 for j in range(1, n):
@@ -368,6 +415,8 @@ class RoutePart:
                 if o is None:
                     continue
                 nxt = getattr(o, "out", None)
+                if isinstance(nxt, ec.Tap):
+                    continue                            # already an endpoint recorder (Hub: port.out = endpoint)
                 if nxt is not None:
                     o.out = tap(j, nxt)                 # a hand-over inside the switch (egress port -> its scheduler)
                 else:
@@ -377,7 +426,25 @@ class RoutePart:
             if not case.get("pre"):
                 for d in w["drivers"]:
                     h.add_driver(d["bursts"], late=d["late"])
-            log = h.run(max_steps=30000)
+            # a scheduler whose run() loops without yielding never comes back from env.step(): bound the run ourselves
+            import signal
+            import time
+
+            def _hang(signum, frame):
+                raise RuntimeError("a process of the switch loops without yielding")
+            old_h = signal.signal(signal.SIGALRM, _hang)
+            t_start = time.time()
+            old_t = signal.setitimer(signal.ITIMER_REAL, 3.0)
+            try:
+                log = h.run(max_steps=30000)
+            except RuntimeError as e:
+                log = h.log
+                h.raised = ["Hang", str(e)]
+                h.exhausted = False
+            finally:
+                left = max(old_t[0] - (time.time() - t_start), 0.05) if old_t[0] else 0
+                signal.signal(signal.SIGALRM, old_h)
+                signal.setitimer(signal.ITIMER_REAL, left)
         final = []
         for j, st in enumerate(stages):
             o = objs[j]
@@ -429,6 +496,11 @@ class RoutePart:
                 br.append(self._elem_term(view, s[0]))
             else:
                 br.append(f"({self._elem_term(view, s[0])} >> {self._elem_term(view, s[1])})")
+        if case["kind"] == "nsplitter":
+            return f"(mcast {q0} (fun _ _ => true) {cf.lst(br)})"
+        if case["kind"] == "hub":
+            eps = cf.lst([f"{{| ep_id := {cf.z(i)}; ep_port := true |}}" for i in range(case["nouts"])])
+            return (f"(mcast {q0} (fun i p => existsb (fun e => Nat.eqb (fst e) i) (hub_put {eps} (flow p))) {cf.lst(br)})")
         if case["kind"] == "sswitch":
             # the model of the class itself (AdaptSwitch.sswitch_elem); it unfolds to the same `switch` term
             return (f"(sswitch_elem {cf.nat(case['nports'])} {cf.q(case['rate'])} {cf.opt(case['buffer'], cf.z)} {eid_fun('sw.')} {q0})")
@@ -477,15 +549,18 @@ class RoutePart:
             for i, k in enumerate(s or []):
                 pos[k] = (j, i, len(s))
 
+        cast = dm["el"] in ("nsplitter", "hub")
+
         def inj(k, a):
             j, i, ln = pos[k]
             inner = a if ln == 1 else ("inl (%s)" % a if i == 0 else "inr (%s)" % a)
-            return "inr (" + "inr (" * j + "inl (" + inner + ")" + ")" * j + ")"
+            core = "inr (" * j + "inl (" + inner + ")" + ")" * j
+            return core if cast else "inr (" + core + ")"              # a switch has its demux in front: one more inr
 
         def out_term(j, u):
             p = ec.pkt_coq(specs[str(u)], u)
             if j == 0:
-                return f"EHand 0%nat {p}"                              # the demux hands the packet to a device
+                return "" if cast else f"EHand 0%nat {p}"              # the demux hands the packet to a device
             if j not in pos:
                 return None
             sl, i, ln = pos[j]
@@ -502,6 +577,7 @@ class RoutePart:
             outs = [out_term(j, u) for (j, u) in seen]
             if any(o is None for o in outs):
                 return None, None, "a packet left a stage that is not part of the switch"
+            outs = [o for o in outs if o]
             if x[0] == "put":
                 comp.append(f"(IPut {ec.pkt_coq(specs[str(x[1])], x[1])}, {cf.lst(outs)})")
             else:
@@ -572,9 +648,17 @@ class RoutePart:
         fin = obs["final"]
         if fin[0]["received"] is not None and fin[0]["received"] != len(injected):
             msgs.append(f"route-demux-counter: {len(injected)} packets were put into the switch, its demux counts {fin[0]['received']}")
-        # the demux: exactly one device per packet, the one the documented rule names; no route and no default: discarded
+        cast = dm["el"] in ("nsplitter", "hub")
         noroute = []
-        for u in injected:
+        if cast:
+            # every output the packet is meant for receives it exactly once, in put order
+            for u in injected:
+                fl = specs[str(u)]["flow"]
+                want = [slots[i][0] for i in self.wanted(dm, fl)]
+                if sorted(handed.get(u, [])) != want:
+                    msgs.append(f"route-replicate: packet {u} of flow {fl} was handed to stages {handed.get(u, [])}, each of {want} must get it exactly once")
+        # the demux: exactly one device per packet, the one the documented rule names; no route and no default: discarded
+        for u in ([] if cast else injected):
             fl = specs[str(u)]["flow"]
             sl = self.slot_of(dm, self.rule(dm, fl))
             want = None if sl is None or sl >= len(slots) or slots[sl] is None else slots[sl][0]
@@ -600,9 +684,10 @@ class RoutePart:
                 if sp is None or u not in ins:
                     msgs.append(f"route-invented: {name} forwarded packet {u} that was never put into it")
                     continue
-                if (not same or fields[:2] != [sp["id"], sp["flow"]] or fields[2] != str(sp.get("src", "s")) or fields[3] != sp["size"]
+                must_same = not (dm["el"] == "nsplitter" and k != 1)       # NSplitter: outputs 1.. get shallow copies
+                if (same != must_same or fields[:2] != [sp["id"], sp["flow"]] or fields[2] != str(sp.get("src", "s")) or fields[3] != sp["size"]
                         or F(fields[4]) != F(sp["time"]) or fields[5] != sp.get("payload")):
-                    msgs.append(f"route-altered: {name} forwarded packet {u} as {fields}, same-object={same}")
+                    msgs.append(f"route-altered: {name} forwarded packet {u} as {fields}, same-object={same} (expected {must_same})")
             for u in set(outs):
                 if outs.count(u) > 1:
                     msgs.append(f"route-duplicated: {name} forwarded packet {u} {outs.count(u)} times")
@@ -625,7 +710,7 @@ class RoutePart:
         for k in sorted(set(sink_of.values())):
             for (u, _, _) in crossed[k]:
                 delivered.setdefault(u, []).append(k)
-        for u in injected:
+        for u in ([] if cast else injected):
             fl = specs[str(u)]["flow"]
             sl = self.slot_of(dm, self.rule(dm, fl))
             want = None if sl is None or sl >= len(slots) or slots[sl] is None else slots[sl][-1]
@@ -634,7 +719,13 @@ class RoutePart:
                 msgs.append(f"route-delivered-twice: packet {u} reached the sinks of stages {d}")
             elif d and d[0] != want:
                 msgs.append(f"route-wrong-output: packet {u} of flow {fl} was delivered at the output of stage {d[0]}, its route ends at stage {want}")
-        if obs["exhausted"]:
+        if obs["exhausted"] and cast:
+            for u in injected:
+                for i in self.wanted(dm, specs[str(u)]["flow"]):
+                    k = slots[i][0]
+                    if [x for (x, _, _) in crossed[k]].count(u) > 1:
+                        msgs.append(f"route-delivered-twice: output {i} delivered packet {u} more than once")
+        elif obs["exhausted"]:
             total_drops = sum(fin[k].get("dropped", 0) for k in range(1, n))
             if len(injected) != len(delivered) + total_drops + len(noroute):
                 msgs.append(f"route-conservation: {len(injected)} packets put into the switch, {len(delivered)} delivered, {total_drops} counted "
@@ -649,6 +740,8 @@ class RoutePart:
         stages, slots, dm, specs, injected, handed, crossed, entered, stray = self._walk(case, obs)
         sinks = {s[-1] for s in slots if s}
         deliv = sum(len(crossed[k]) for k in sinks)
+        if dm["el"] in ("nsplitter", "hub"):
+            return len(injected) >= 2 and deliv >= 3
         fates = (1 if deliv else 0) + (1 if any(f.get("dropped") for f in obs["final"][1:]) else 0) + \
                 (1 if any(self.slot_of(dm, self.rule(dm, specs[str(u)]["flow"])) is None for u in injected) else 0)
         return len(injected) >= 3 and deliv >= 1 and fates >= 2
@@ -663,6 +756,8 @@ class RoutePart:
             yield {**case, "ends": {}}
         if case.get("buffer") is not None:
             yield {**case, "buffer": None}
+        if case.get("buffers") and any(b is not None for b in case["buffers"]):
+            yield {**case, "buffers": [None] * len(case["buffers"])}
 
     def describe(self, case, obs):
         k = case["kind"]
@@ -671,6 +766,8 @@ class RoutePart:
             keys += ["fswitch:server=" + case["server"], "fswitch:ports=%d" % case["nports"], "fswitch:ends=%d" % len(case["ends"])]
         elif k == "sswitch":
             keys += ["sswitch:ports=%d" % case["nports"], "sswitch:buffer=%s" % case["buffer"]]
+        elif k in ("nsplitter", "hub"):
+            keys += [k + ":outputs=%d" % case["nouts"]]
         else:
             keys += [k + ":default=%s" % case["default"]]
         if case.get("pre"):
